@@ -84,6 +84,67 @@ def forked_check(solver, extra, seconds, symbols):
     return out['r'], out.get('m')
 
 
+def _parse_values(text):
+    """Parse the answer of (get-value (...)) into {name: value string} (bit-vectors and integers as decimal, rationals as a/b)."""
+    import re
+    out = {}
+    for m in re.finditer(r'\((\|[^|]+\||[^\s()]+)\s+(#x[0-9a-fA-F]+|#b[01]+|true|false|-?\d+(?:\.\d+)?|\(-\s+[^()]+\)|\(/\s+[^()]*(?:\([^()]*\))?[^()]*\)|\(-\s+\(/[^()]+\)\))\)', text):
+        name, v = m.group(1).strip('|'), m.group(2)
+        if v.startswith('#x'):
+            v = str(int(v[2:], 16))
+        elif v.startswith('#b'):
+            v = str(int(v[2:], 2))
+        elif v in ('true', 'false'):
+            v = 'True' if v == 'true' else 'False'
+        else:
+            neg = v.count('-') % 2 == 1
+            nums = [n_[:-2] if n_.endswith('.0') else n_ for n_ in re.findall(r'\d+(?:\.\d+)?', v)]
+            if '/' in v and len(nums) >= 2:
+                v = f'{nums[0]}/{nums[1]}'
+            elif nums:
+                v = nums[0]
+            if neg:
+                v = '-' + v
+        out[name] = v
+    return out
+
+
+def external_check(assertions, symbols, seconds=60):
+    """Second-opinion / portfolio solving with the cvc5 and z3 4.8 binaries (killable subprocesses).
+    Returns (verdict, {name: value string} or None, tool)."""
+    import subprocess, tempfile, os, shutil
+    s = z3.Solver()
+    s.add(*assertions)
+    body = s.to_smt2()
+    text = '(set-option :produce-models true)\n(set-logic ALL)\n' + body
+    names = [z3.Z3_ast_to_string(c.ctx_ref(), c.as_ast()) for _, c in symbols]
+    names = [n for n in names if f'(declare-fun {n} ' in body]
+    if names:
+        text += '(get-value (' + ' '.join(names) + '))\n'
+    fd, path = tempfile.mkstemp(suffix='.smt2')
+    with os.fdopen(fd, 'w') as f:
+        f.write(text)
+    try:
+        for tool, args in (('cvc5', ['--tlimit=%d' % int(seconds * 1000)]), ('/usr/bin/z3', ['-T:%d' % int(seconds)])):
+            exe = shutil.which(tool) or (tool if os.path.exists(tool) else None)
+            if not exe:
+                continue
+            try:
+                p = subprocess.run([exe] + args + [path], capture_output=True, text=True, timeout=seconds + 10)
+            except subprocess.TimeoutExpired:
+                continue
+            lines = p.stdout.strip().splitlines()
+            if not lines or '(error' in p.stdout.split('\n')[0]:
+                continue
+            if lines[0].strip() == 'unsat':
+                return 'unsat', None, tool
+            if lines[0].strip() == 'sat':
+                return 'sat', _parse_values('\n'.join(lines[1:])), tool
+        return 'unknown', None, None
+    finally:
+        os.unlink(path)
+
+
 class Abort(BaseException):
     """Current path is infeasible / was cut; derived from BaseException so that `except Exception` in the code under test does not swallow it."""
 
@@ -249,6 +310,13 @@ class Executor:
         self.queries += 1
         self.solver_s += time.time() - t
         return r, vals
+
+    def prove_external(self, goal, seconds, symbols):
+        t = time.time()
+        r, vals, tool = external_check(list(self.pc) + [z3.Not(goal)], symbols, seconds)
+        self.queries += 1
+        self.solver_s += time.time() - t
+        return r, vals, tool
 
     def prove(self, goal, extra=(), limit=None):
         """Returns ('unsat', None) when pc /\\ extra => goal, ('sat', model) with a countermodel, or ('unknown', None)."""
